@@ -94,14 +94,17 @@ impl TryFrom<&[u8]> for SecretKeyEnum {
     type Error = BlsError;
 
     fn try_from(value: &[u8]) -> Result<Self, Self::Error> {
-        let ee = Bls12381::try_from(value[0])?;
+        let (tag, rest) = value
+            .split_first()
+            .ok_or_else(|| BlsError::InvalidInputs("Invalid secret key bytes".to_string()))?;
+        let ee = Bls12381::try_from(*tag)?;
         match ee {
             Bls12381::G1 => {
-                let sk = SecretKey::<Bls12381G1Impl>::try_from(&value[1..])?;
+                let sk = SecretKey::<Bls12381G1Impl>::try_from(rest)?;
                 Ok(SecretKeyEnum::G1(sk))
             }
             Bls12381::G2 => {
-                let sk = SecretKey::<Bls12381G2Impl>::try_from(&value[1..])?;
+                let sk = SecretKey::<Bls12381G2Impl>::try_from(rest)?;
                 Ok(SecretKeyEnum::G2(sk))
             }
         }
@@ -157,6 +160,9 @@ impl SecretKeyEnum {
 
     /// Convert a big-endian representation of the secret key.
     pub fn from_be_bytes(bytes: &[u8]) -> CtOption<Self> {
+        if bytes.is_empty() {
+            return CtOption::new(Self::default(), Choice::from(0u8));
+        }
         let t = match Bls12381::try_from(bytes[0]) {
             Ok(t) => t,
             Err(_) => return CtOption::new(Self::default(), Choice::from(0u8)),
@@ -190,6 +196,9 @@ impl SecretKeyEnum {
 
     /// Convert a little-endian representation of the secret key.
     pub fn from_le_bytes(bytes: &[u8]) -> CtOption<Self> {
+        if bytes.is_empty() {
+            return CtOption::new(Self::default(), Choice::from(0u8));
+        }
         let t = match Bls12381::try_from(bytes[0]) {
             Ok(t) => t,
             Err(_) => return CtOption::new(Self::default(), Choice::from(0u8)),
